@@ -14,3 +14,24 @@ Lemma tie_multi_json :
   multi_stdout true [(0%Z, "A"); (0%Z, "B")] =
   String.append src_multi_json_open (String.append "A" (String.append src_multi_json_sep (String.append "B" (String.append src_multi_json_close nl)))).
 Proof. reflexivity. Qed.
+
+(* main(): `if ranked_return_codes.index(worker_ret) > ranked_return_codes.index(ret): ret = worker_ret`, translated from the current source (T1c).
+   For statuses that are in the ranked list (index() raises ValueError otherwise) the model's merge is that statement. *)
+Lemma rank_go_zindex st : forall l i, In st l ->
+  Z.of_nat ((fix go (l : list Z) (i : nat) : nat := match l with [] => 0%nat | x :: r => if (x =? st)%Z then i else go r (S i) end) l i)
+  = (Z.of_nat i + src_zindex st l)%Z.
+Proof.
+  induction l as [|x r IH]; intros i H; [destruct H|].
+  cbn [src_zindex]. rewrite (Z.eqb_sym st x). destruct (x =? st)%Z eqn:E.
+  - lia.
+  - destruct H as [H|H]; [subst; rewrite Z.eqb_refl in E; discriminate|]. rewrite IH by exact H. lia.
+Qed.
+Lemma tie_rank_update : forall ret w, In ret ranked_return_codes -> In w ranked_return_codes -> merge ret w = src_rank_update ret w.
+Proof.
+  intros ret w Hr Hw. unfold merge, src_rank_update, rank. cbv zeta.
+  pose proof (rank_go_zindex ret ranked_return_codes 0%nat Hr) as A.
+  pose proof (rank_go_zindex w ranked_return_codes 0%nat Hw) as B.
+  destruct (Nat.ltb _ _) eqn:E1; destruct (src_zindex w ranked_return_codes >? src_zindex ret ranked_return_codes)%Z eqn:E2; try reflexivity.
+  - apply Nat.ltb_lt in E1. lia.
+  - apply Nat.ltb_ge in E1. lia.
+Qed.
